@@ -390,3 +390,9 @@ Fixpoint wrun (sched : list nat) (s : wstate) : option wstate :=
   | [] => Some s
   | i :: r => match wstep s i with Some s' => wrun r s' | None => None end
   end.
+
+(* ---------- LessExecutor.DoOrDiscard (lessexecutor.go:24-34) ----------
+   now := timex.Now(); lastTime := le.lastTime.Load() (0 = never executed);
+   lastTime == 0 || lastTime+threshold < now  =>  lastTime = now, execute, true;  else false *)
+Definition less_step (thr : Z) (last now : Z) : bool * Z :=
+  if (last =? 0) || (last + thr <? now) then (true, now) else (false, last).
